@@ -420,6 +420,11 @@ pub fn styles_part(st: &BbStyles) -> Vec<u8> {
 }
 
 pub fn encode(doc: &XlsbDoc) -> Vec<u8> {
+    let (parts, knobs) = parts(doc);
+    zipw::pack(parts, &knobs)
+}
+
+pub fn parts(doc: &XlsbDoc) -> (Vec<(String, Vec<u8>)>, ZipKnobs) {
     let mut parts: Vec<(String, Vec<u8>)> = vec![];
     let ct = "<?xml version=\"1.0\" encoding=\"UTF-8\" standalone=\"yes\"?>\n<Types xmlns=\"http://schemas.openxmlformats.org/package/2006/content-types\"><Default Extension=\"bin\" ContentType=\"application/vnd.ms-excel.sheet.binary.macroEnabled.main\"/><Default Extension=\"rels\" ContentType=\"application/vnd.openxmlformats-package.relationships+xml\"/></Types>";
     parts.push(("[Content_Types].xml".into(), ct.as_bytes().to_vec()));
@@ -462,7 +467,7 @@ pub fn encode(doc: &XlsbDoc) -> Vec<u8> {
     // part names are looked up with their exact spelling
     let mut knobs = doc.zip.clone();
     knobs.name_case = 0;
-    zipw::pack(parts, &knobs)
+    (parts, knobs)
 }
 
 // ---------------------------------------------------------------------------------------------
